@@ -1,0 +1,76 @@
+//go:build verif
+
+// Package verifhooks re-exports a few internals for the external verification
+// harness. It is compiled only with the build tag "verif" and is not part of
+// the library's API.
+package verifhooks
+
+import (
+	"fmt"
+
+	"github.com/jsightapi/jsight-schema-go-library/bytes"
+	"github.com/jsightapi/jsight-schema-go-library/fs"
+	"github.com/jsightapi/jsight-schema-go-library/internal/json"
+	"github.com/jsightapi/jsight-schema-go-library/notations/jschema/internal/scanner"
+	"github.com/jsightapi/jsight-schema-go-library/notations/jschema/internal/schema"
+	"github.com/jsightapi/jsight-schema-go-library/notations/jschema/internal/schema/constraint"
+)
+
+// Event is one lexical event of a scanner.
+type Event struct {
+	Type  string
+	Begin uint
+	End   uint
+}
+
+// ScanSchema runs the schema scanner over content and returns its events.
+func ScanSchema(content []byte) (evs []Event, err error) {
+	defer func() {
+		if r := recover(); r != nil {
+			if e, ok := r.(error); ok {
+				err = e
+				return
+			}
+			err = fmt.Errorf("%v", r)
+		}
+	}()
+	s := scanner.New(fs.NewFile("", content))
+	for {
+		lex, ok := s.Next()
+		if !ok {
+			return evs, nil
+		}
+		evs = append(evs, Event{Type: lex.Type().String(), Begin: uint(lex.Begin()), End: uint(lex.End())})
+	}
+}
+
+// Number wraps internal/json.Number.
+type Number struct{ n *json.Number }
+
+func NewNumber(s string) (Number, error) {
+	n, err := json.NewNumber(bytes.Bytes(s))
+	if err != nil {
+		return Number{}, err
+	}
+	return Number{n: n}, nil
+}
+
+func (n Number) Cmp(m Number) int                 { return n.n.Cmp(m.n) }
+func (n Number) String() string                   { return n.n.String() }
+func (n Number) LengthOfFractionalPart() uint     { return n.n.LengthOfFractionalPart() }
+func (n Number) Equal(m Number) bool              { return n.n.Equal(m.n) }
+func (n Number) GreaterThan(m Number) bool        { return n.n.GreaterThan(m.n) }
+func (n Number) GreaterThanOrEqual(m Number) bool { return n.n.GreaterThanOrEqual(m.n) }
+func (n Number) LessThan(m Number) bool           { return n.n.LessThan(m.n) }
+func (n Number) LessThanOrEqual(m Number) bool    { return n.n.LessThanOrEqual(m.n) }
+
+// Constraints is the generated ordered map of the internal schema package.
+type (
+	Constraints     = schema.Constraints
+	ConstraintsItem = schema.ConstraintsItem
+	ConstraintType  = constraint.Type
+	Constraint      = constraint.Constraint
+)
+
+// NewMinLength builds a cheap constraint value usable as a map value.
+func NewMinLength(v string) Constraint { return constraint.NewMinLength(bytes.Bytes(v)) }
